@@ -3,7 +3,7 @@
    render_entity_with_schema's text; the import blocks of the two Python ORMs), and for every generated
    action the outcome of format!("{}", action) under catch_unwind.  [check_*] recompute them with the model
    and return the ids of the sub-checks that differ.  No proofs here. *)
-From VV.EXP Require Export Names PyClass.
+From VV.EXP Require Export Names PyClass RustIdent.
 
 (* long runs of one character are printed by the harness as [rep_str "c" n] *)
 Definition rep_str (u : string) (n : N) : string := N.iter n (String.append u) "".
@@ -19,7 +19,8 @@ Record xt := mkXT {
   xt_sa : list (list string);   (* non-empty lines of the SQLAlchemy output before the first class: every DISTINCT
                                    block seen over the repeated renders of this table *)
   xt_sm : list (list string);   (* same for SQLModel *)
-  xt_pyclass : string }.     (* name of the table class in the SQLAlchemy output *)
+  xt_pyclass : string;       (* name of the table class in the SQLAlchemy output *)
+  xt_invalid : list string }.   (* O-C17's reports "invalid-<kind>:<name>" for the SeaORM declarations of this table *)
 
 Record exp_case := mkXC { x_schema : schema; x_obs : list xt }.
 
@@ -66,12 +67,14 @@ Fixpoint mismatches_from (i : nat) (cs : list exp_case) : list (nat * list nat) 
 (* classifiers and theorem hypotheses, per table of the case, in this order:
    0 known_C17_clash   1 known_C16_fk_cycle   2 known_C18_datetime (former class, fixed)   3 known_C18_slice_order
    4 fk_closed (hypothesis of refs_exist)   5 known_C17_py_ident   6 known_C17_py_dup
-   7 known_C17_py_empty_import   8 known_C17_py_text   9 known_C17_py_sqlmodel_text *)
-Definition classify_table (s : schema) (t : table_def) : list bool :=
+   7 known_C17_py_empty_import   8 known_C17_py_text   9 known_C17_py_sqlmodel_text
+   10 known_C17_rust_ident (on the names the oracle reported for the table) *)
+Definition classify_table (s : schema) (t : table_def) (o : xt) : list bool :=
   [known_C17_clash s t; known_C16_fk_cycle s t; known_C18_datetime t; known_C18_slice_order s t;
    fk_closed s; known_C17_py_ident t; known_C17_py_dup t; known_C17_py_empty_import t; known_C17_py_text t;
-   known_C17_py_sqlmodel_text t].
-Definition classify_case (c : exp_case) : list (list bool) := map (classify_table (x_schema c)) (x_schema c).
+   known_C17_py_sqlmodel_text t; known_C17_rust_ident s t (xt_invalid o)].
+Definition classify_case (c : exp_case) : list (list bool) :=
+  map (fun to => classify_table (x_schema c) (fst to) (snd to)) (combine (x_schema c) (x_obs c)).
 
 (* ---------- K-disp ---------- *)
 Record disp_case := mkDC {
